@@ -43,6 +43,8 @@ class SlotInfo:
             self.chunk0 = int(self.p[3]) if self.kind.startswith("fast") else int(self.p[7])
             self.nch = int(self.p[4]) if self.kind.startswith("fast") else int(self.p[8])
             self.L = 8 if self.kind.startswith("fast") else 8 * ((int(self.p[3]) + 7) // 8)
+            if self.kind.startswith("sinc") and self.p[-1] == "rprobe":
+                self.L = int(self.p[3])     # raw-length probe interpolator
         else:
             self.ri, self.ro = int(self.p[0]), int(self.p[1])
             self.chunk0 = int(self.p[2])
@@ -594,7 +596,8 @@ class C12(Prop):
             rng.shuffle(args)
             classes = set()
             for name, v, c in args[:rng.randint(8, len(args))]:
-                ops.append(f"0 {name} {hx(v)} {rng.choice([0, 1])}")
+                # a third of the setter calls go through the object-safe wrapper trait (`&mut dyn VecResampler`)
+                ops.append(f"0 {name} {hx(v)} {rng.choice([0, 1])}" + (" dyn" if rng.random() < 0.33 else ""))
                 classes.add(c)
                 if rng.random() < 0.3:
                     ops.append("0 proc - n m r%d" % rng.randint(0, 99))
@@ -752,6 +755,24 @@ class C13(Prop):
                 ops.append(f"0 {m}")
             ops += ["0 proc - n n r3", "1 proc - n n r3"] * rng.randint(1, 3)
             hs.append(History(ops, {"cfg": cfg.line, "kind": cfg.kind, "ty": cfg.ty, "feats": ["pending-ramp"] + sorted(set(bad_kind.values())),
+                                    "bad_at": bad_at, "bad_kind": bad_kind}))
+        # a rejected call that carried a (well-formed) mask, then valid calls WITHOUT a mask: the stored mask of the rejected
+        # call must not survive
+        for i in range(max(10, self.n // 4)):
+            cfg = gen.gen_cfg(rng, max_chunk=300, nch=rng.choice([2, 3, 4]))
+            m = gen.rand_mask(rng, cfg.nch, allow_all_false=False)
+            while m == "-" or "0" not in m or "1" not in m:
+                m = "".join(rng.choice("01") for _ in range(cfg.nch))
+            ops = [cfg.new(0), cfg.new(1)] + ["0 proc - n m r3", "1 proc - n m r3"] * rng.randint(0, 2)
+            bad_at, bad_kind = [], {}
+            first = m.index("1")
+            bad, kname = rng.choice([(f"proc {m} n m r3 si={first}:0", "in-empty"), (f"proc {m} n m r3 so={first}:0", "out-empty"),
+                                     (f"proc {m} n m r3 ic={cfg.nch + 1}", "in-channels"), (f"proc {m} n m r3 oc={cfg.nch - 1}", "out-channels")])
+            bad_at.append(len(ops))
+            bad_kind[len(ops)] = kname
+            ops.append(f"0 {bad}")
+            ops += ["0 proc - n m r3", "1 proc - n m r3"] * rng.randint(2, 4)
+            hs.append(History(ops, {"cfg": cfg.line, "kind": cfg.kind, "ty": cfg.ty, "feats": ["masked-rejected", kname],
                                     "bad_at": bad_at, "bad_kind": bad_kind}))
         # constructors
         for i in range(max(10, self.n // 6)):
@@ -974,6 +995,16 @@ class C18(Prop):
                 hsub = gen.gen_valid_history(rng, cfg, rng.randint(3, 14), slot=sl, ratio_changes="calm", sig=tiny)
                 if tiny:
                     feats.add("subnormal-signal")
+                if rng.random() < 0.4:
+                    # state that survives an error return must not live in the thread: a rejected partial / wrapper call
+                    # (too few output channels, after the wrapper has prepared its input) somewhere in the stream, flushes later
+                    k = rng.randint(1, len(hsub.ops))
+                    bad = rng.choice([f"{sl} part - p2 m r77 oc={max(0, cfg.nch - 1)}", f"{sl} part - p1 n-1 r78",
+                                      f"{sl} part - p3 m r79 oc={cfg.nch + 1}"])
+                    hsub.ops.insert(k, bad)
+                    hsub.ops.append(f"{sl} part - none m z")
+                    hsub.ops.append(f"{sl} partw - none z")
+                    feats.add("rejected-partial")
                 feats |= set(hsub.meta["feats"])
                 ops.append(hsub.ops)
             # interleave the slots' ops
@@ -1433,6 +1464,8 @@ class C03(Prop):
             clause = st.split(" ")[0] if st in ("panic", "abort") else "err:" + (st.split(" ")[1] if " " in st else st)
             v = viol("C03", h, k, info, clause, {"got": h.real[k][:200]},
                      model_same=(fm is not None and fm["status"] == st))
+            if info is not None and info.kind == "sincin" and info.p[-1] == "rprobe" and info.p[3] == "1":
+                v["class"] = "sincin:user-interpolator-len-1"       # witness class of finding D18
             if fm is not None and fm.get("site") and "position diverges" in fm["site"]:
                 # the model's stepping loop ran to its idle fuel: no active channel and a position that moves away from
                 # end_idx (witness class of finding D17)
@@ -1585,6 +1618,10 @@ class C07(Prop):
             small = rng.random() < 0.4
             cfg = gen.gen_cfg(rng, max_chunk=(8 if small else 300), probe=True)
             nops = rng.randint(40, 400) if self.tier == "quick" else rng.randint(200, 20000 if small else 3000)
+            if self.tier != "quick" and cfg.kind in gen.ASYNC:
+                # keep the model's work per history bounded (frames per call x taps x channels x calls <= ~2e9)
+                per_call = max(1.0, cfg.chunk * (cfg.ratio if cfg.kind.endswith("in") else 1.0)) * cfg.L * cfg.nch
+                nops = max(200, min(nops, int(2e9 / per_call)))
             # frame accounting only: the model's FFT data plane is switched off for these long streams (`ctl`)
             ops = [cfg.new(0) + (" ctl" if cfg.kind in gen.FFT else "")]
             feats = set()
@@ -1597,7 +1634,11 @@ class C07(Prop):
                     ops.append("0 part - none m z")
                     feats.add("part")
                 else:
-                    ops.append(f"0 proc - n {rng.choice(['n', 'm'])} z")
+                    # the frame accounting must not depend on which channels are active (all-false masks included)
+                    mk = "-" if rng.random() < 0.8 else rng.choice(["0" * cfg.nch, gen.rand_mask(rng, cfg.nch)])
+                    if mk != "-":
+                        feats.add("masked")
+                    ops.append(f"0 proc {mk} n {rng.choice(['n', 'm'])} z")
             if small:
                 feats.add("tiny-chunks")
             hs.append(History(ops, {"cfg": cfg.line, "kind": cfg.kind, "ty": cfg.ty, "feats": sorted(feats)}))
@@ -1773,7 +1814,7 @@ class C05(Prop):
         return hs
 
     def distinct_key(self, h):
-        return (h.meta["pair"], h.meta["cfg"], h.meta["chunks"])
+        return (tuple(h.meta["pair"]), h.meta["cfg"], tuple(h.meta["chunks"]))   # lists after a JSON round trip (replay)
 
     def nontrivial(self, h):
         return len(set(h.meta["chunks"])) > 1 or h.meta["pair"][0] != h.meta["pair"][1]
@@ -1811,8 +1852,15 @@ class C05(Prop):
                     tau = (Fraction(-(i0.L // 2)) + (j + 1) * tt) * f_ + half
                     if abs(tau - round(tau)) < Fraction(1, 10 ** 6):
                         ties.add(j)
-            if i0.p[-1] == "probe":
+            if i0.p[-1] in ("probe", "rprobe"):
                 tol = max(tol, 1e-6)     # the probe's integer weights are rough in the sub-filter index
+            # "agree to rounding": within one call the position is accumulated by `idx += t` -- up to `steps` roundings of at
+            # most ulp(span)/2 each, where span = the input frames one call covers; the two chunkings accumulate them
+            # differently.  A unit-amplitude signal moves by at most ~4 per input frame under these interpolators.
+            if ty == "f64":
+                span = max([inf.g[1] for inf in infos.values() if inf is not None and inf.g] + [1])
+                steps = span * max(1.0, float(i0.orig)) + 16
+                tol = max(tol, 4.0 * steps * span * 2.0 ** -52)
         for slot in sorted(st):
             if slot == "0":
                 continue
@@ -2215,6 +2263,10 @@ class C14(Prop):
                 r1, rel = gen.in_range_ratio(rng, cfg, calm=False)
                 pre = [f"0 ratio {hx(r1)} 0"]
                 ratio = r1
+                if rng.random() < 0.4:
+                    # ... and back: reset() must restore the construction ratio, and output_delay() with it
+                    pre = [f"0 ratio {hx(r1)} {rng.choice([0, 1])}", "0 reset"]
+                    ratio = cfg.ratio
                 per_in = cfg.chunk if cfg.kind.endswith("in") else max(1, cfg.chunk / ratio)
                 need_in = n + 4 * L + 50 + int(10 / ratio)
             ncalls = int(need_in / per_in) + 3
